@@ -618,6 +618,35 @@ impl PeerManager {
         token_type: TokenType,
         peer: Node,
     ) -> Result<(), crate::Error> {
+        // the token type was resolved when the connection was opened:
+        // check that the invitation has not been consumed by another connection in the meantime
+        let still_valid = match &token_type {
+            TokenType::OwnedInvite(owned) => self
+                .allowed_token
+                .get(&MeetingSecret::derive_token(DERIVE_STRING, &owned.id))
+                .map(|tokens| {
+                    tokens.iter().any(
+                        |tt| matches!(tt, TokenType::OwnedInvite(o) if o.id.eq(&owned.id)),
+                    )
+                })
+                .unwrap_or(false),
+            TokenType::Invite(invite) => self
+                .allowed_token
+                .get(&MeetingSecret::derive_token(DERIVE_STRING, &invite.invite_id))
+                .map(|tokens| {
+                    tokens.iter().any(
+                        |tt| matches!(tt, TokenType::Invite(i) if i.invite_id.eq(&invite.invite_id)),
+                    )
+                })
+                .unwrap_or(false),
+            TokenType::AllowedPeer(_) => false,
+        };
+        if !still_valid {
+            return Err(Error::InvalidInvite(
+                "this invite has already been used".to_string(),
+            ));
+        }
+
         self.services
             .database
             .add_peer_nodes(vec![peer.clone()])
